@@ -105,6 +105,43 @@ Section Gen.
   Lemma xobj_leaf (Sy : sys) c ops : c_order c = 3%nat -> xwf c ops = true -> ev_ok (erase ops) (c_sinit c, 0%nat) = true ->
     xobj Sy c ops = [xleaf (mkpath Sy) c ops].
   Proof. intros Ho Hw Hk. unfold xobj. rewrite (xpath_is_mkpath Sy c Ho ops Hw), Hk. reflexivity. Qed.
+
+  (* ---------------- the machine with other (generated) steps and observation pieces ---------------- *)
+  Notation lp := (@lp R).
+  Notation xop := (@xop R).
+  Fixpoint run_with (step : lp -> xop -> option lp) (l : lp) (ops : list xop) : option lp :=
+    match ops with
+    | [] => Some l
+    | o :: r => match step l o with Some l' => run_with step l' r | None => None end
+    end.
+  Lemma run_with_is_xrun (Sy : sys) (step : lp -> xop -> option lp) : (forall l o, step l o = xstep Sy l o) ->
+    forall ops l, run_with step l ops = xrun Sy l ops.
+  Proof.
+    intros H ops. induction ops as [|o r IH]; intros l; cbn [run_with xrun]; [reflexivity|].
+    rewrite H. destruct (xstep Sy l o); [apply IH|reflexivity].
+  Qed.
+  (* build() and orientational_averaging() with F4n, the sign and the state whose population weights the pathway as parameters *)
+  Definition obs_with (fF4n : (nat -> vec3) -> vec3) (fsign : xcall -> (nat -> Z) -> Z) (fn0 : (nat -> nat * nat) -> nat)
+             (Sy : sys) (l : lp) : option pway :=
+    let c := l_call l in
+    if negb (Nat.eqb (c_order c) 3) then None
+    else match l_wd l with
+         | None => None
+         | Some wg =>
+           Some (mkPw (pname_of (c_pname c)) (reph_of (c_ptype c)) (map (l_trans l) (seq 0 (S (c_order c))))
+                      (z2r (fsign c (l_sides l))) (fF4n (l_dm l)) (map (l_freq l) (seq 0 (nslots c)))
+                      (fst wg 1%nat) (fst wg 3%nat) (snd wg 1%nat) (snd wg 3%nat)
+                      (l_evf l) (rho Sy (fn0 (l_trans l))) true)
+         end.
+  Lemma obs_with_is_lp_obs fF4n fsign fn0 (Sy : sys) (l : lp) :
+    (forall d, fF4n d = F4 (d 0%nat) (d 1%nat) (d 2%nat) (d 3%nat)) ->
+    (forall c s, c_order c = 3%nat -> fsign c s = (s 0%nat * s 1%nat * s 2%nat * s 3%nat)%Z) ->
+    (forall tr, fn0 tr = snd (tr 0%nat)) ->
+    obs_with fF4n fsign fn0 Sy l = lp_obs Sy l.
+  Proof.
+    intros HF Hs Hn. unfold obs_with, lp_obs. destruct (Nat.eqb_spec (c_order (l_call l)) 3) as [Ho|Ho]; cbn [negb]; [|reflexivity].
+    destruct (l_wd l) as [wg|]; [|reflexivity]. now rewrite HF, (Hs _ _ Ho), Hn.
+  Qed.
 End Gen.
 
 (* the generated nest run by the object machine equals the nest with the closed-form leaves, for systems whose only
